@@ -25,6 +25,7 @@ def scenarios(tier, seed):
 
 def run(tier, seed):
     rep = Report("C15", tier, seed)
+    rep.add_proof("InColumnAll")
     rep.add_mc("MC_Tracker", tlc.model_check("MC_Tracker", "MC_Tracker.cfg" if tier == "thorough" else "MC_Tracker_quick.cfg",
                                              must_take=["Place", "Step"], timeout=3000))
     scs = scenarios(tier, seed)
